@@ -55,7 +55,7 @@ thread_local! {
 }
 
 fn resolve(text: &str, referrer: &ModuleSpecifier) -> Res {
-  if text == "bare-pkg"
+  if matches!(text, "bare-pkg" | "jsxlib/jsx-runtime" | "jsxtypes/jsx-runtime")
     && let Some(t) = BARE.with(|b| b.borrow().clone())
   {
     return Res::Ok(t);
@@ -131,15 +131,30 @@ fn expected_module(w: &World, i: usize, cfg: &Cfg) -> ExpModule {
       }
     }
   }
-  if kind.is_jsx()
-    && let Some(e) = my_edges.iter().find(|e| e.form == Form::JsxPragma)
-  {
-    let t = format!("{}/jsx-runtime", w.target_text(e.dst));
+  // the import source of a JSX module: its own pragma, else the resolver's default
+  let jsx_pragma = my_edges.iter().find(|e| e.form == Form::JsxPragma);
+  let jsx_source: Option<String> = if !kind.is_jsx() {
+    None
+  } else if let Some(e) = jsx_pragma {
+    Some(w.target_text(e.dst))
+  } else if cfg.rich {
+    Some("jsxlib".to_string())
+  } else {
+    None
+  };
+  if let Some(source) = jsx_source {
+    let t = format!("{source}/jsx-runtime");
     let d = deps.entry(t.clone()).or_insert_with(new_dep);
     if d.code.is_none() {
       d.code = Some(resolve(&t, &me));
     }
-    // types resolution equals the code one without a resolver: nothing recorded
+    if types && d.ty.is_none() {
+      if jsx_pragma.is_none() && cfg.rich {
+        // the resolver's default types source applies only without a pragma
+        d.ty = Some(resolve("jsxtypes/jsx-runtime", &me));
+      }
+      // otherwise the types resolution equals the code one: nothing recorded
+    }
     d.imports.push(("JsxImportSource".into(), false));
     d.all_asset = false;
   }
@@ -397,10 +412,10 @@ fn body(space: Space) -> impl Fn(&Ch) -> Run + Sync + Send {
         let loader = ScriptedLoader::new(sched);
         w.install(&loader);
         let resolver = MapResolver {
-          bare: [("bare-pkg".to_string(), w.spec(n - 1))].into_iter().collect(),
+          bare: ["bare-pkg", "jsxlib/jsx-runtime", "jsxtypes/jsx-runtime"].iter().map(|k| (k.to_string(), w.spec(n - 1))).collect(),
           types: (0..n).filter(|i| matches!(w.kinds[*i], Kind::Js | Kind::Jsx)).map(|i| (w.url(i), w.url((i + 1) % n))).collect(),
-          jsx_import_source: None,
-          jsx_import_source_types: None,
+          jsx_import_source: Some("jsxlib".into()),
+          jsx_import_source_types: Some("jsxtypes".into()),
         };
         let npm = ScriptedNpmResolver::default();
         let mut g = ModuleGraph::new(kind);
@@ -700,7 +715,7 @@ pub fn prop(tier: Tier) -> Prop {
   };
   Prop {
     id: "C01",
-    rule: "state = world (entry kinds x attribute per target x import edges with form and target x local/remote x x-typescript-types header x 1..2 roots); per world 3 graph kinds x 5 option sets (default; skip_dynamic_deps; dynamic root without unstable text/bytes; resolver + npm resolver + jsr passthrough + configured type import; default with the reachable redirects already in the graph through fill_from_lockfile) are built. Oracle: (1) each JS/TS module's recorded dependencies (specifier text -> code target, type target, is_dynamic, attribute, import kinds) equal what reference rules derive from the renderer's record of the statements it wrote; (2) slots + redirect sources = least closure of the roots under the follow rules of the kind/options, computed over the reference dependencies; (3) one load per specifier (asset->module upgrade excepted), every loader redirect recorded; (4) entry kind where the world determines it. Non-trivial = world with an edge of a non-default form.".into(),
+    rule: "state = world (entry kinds x attribute per target x import edges with form and target x local/remote x x-typescript-types header x 1..2 roots); per world 3 graph kinds x 5 option sets (default; skip_dynamic_deps; dynamic root without unstable text/bytes; resolver (bare-specifier map, resolve_types table, default JSX import source and types source) + npm resolver + jsr passthrough + configured type import; default with the reachable redirects already in the graph through fill_from_lockfile) are built. Oracle: (1) each JS/TS module's recorded dependencies (specifier text -> code target, type target, is_dynamic, attribute, import kinds) equal what reference rules derive from the renderer's record of the statements it wrote; (2) slots + redirect sources = least closure of the roots under the follow rules of the kind/options, computed over the reference dependencies; (3) one load per specifier (asset->module upgrade excepted), every loader redirect recorded; (4) entry kind where the world determines it. Non-trivial = world with an edge of a non-default form.".into(),
     assumptions: vec![
       "the fourth option set has a resolver (bare-specifier map, resolve_types table for untyped modules), an npm resolver, jsr passthrough and one configured type import; the other three use default resolution".into(),
       "same-attribute proviso enforced by the generator (also through redirects, roots, types header, @ts-types pragma); at most one self-types / jsx pragma per module".into(),
